@@ -549,6 +549,9 @@ def spec_check(ctx, budget):
         "automorphism of the model's parameter structure (letters incl. ambiguity codes, motif probabilities and rate parameters per scope "
         "move together; twice); one internal edge (or EVERY internal edge: star tree) given length 0 by a rule vs the tree with those nodes "
         "dissolved (twice); cogent3's own bifurcating() with the new edges at length 0; "
+        "rate parameters scoped by tip_names + outgroup_name (clade / stem / both) or edges=[...] on most problems and in a dedicated pass under "
+        "EVERY root placement, with scope_explicit = the same rule given edge by edge for the edge set computed on the undirected tree; "
+        "user-built TimeReversibleNucleotide models from seven predicate-set layouts (those the library accepts) under the re-rooting relations; "
         "tolerance 1e-8*|lnL|; non-trivial = (model, problem, relation, target) that held"
     )
     rng = ctx.subrng(f"spec{budget}")
